@@ -509,7 +509,8 @@ func (c *loopCase) attribute(symptoms []string) map[string]string {
 			continue
 		}
 		for s := range left {
-			if !now[s] {
+			// gone = not observed AND the run got far enough to observe it
+			if !now[s] && !blocked(s, now) {
 				cause[s] = repairs[k].name
 				delete(left, s)
 			}
@@ -519,6 +520,27 @@ func (c *loopCase) attribute(symptoms []string) map[string]string {
 		cause[s] = "unexplained"
 	}
 	return cause
+}
+
+// blocked: a symptom cannot be observed when an earlier step of the loop failed.
+func blocked(s string, now map[string]bool) bool {
+	if s != "inspect-error" && now["inspect-error"] {
+		return true
+	}
+	switch {
+	case strings.HasPrefix(s, "hcl-") && s != "hcl-marshal-error" && s != "hcl-eval-error":
+		if now["hcl-marshal-error"] || now["hcl-eval-error"] || now["hcl-diff-error"] {
+			return true
+		}
+		if (s == "hcl-db-diff" || s == "hcl-raw-catalogue") && now["hcl-apply-error"] {
+			return true
+		}
+	case s == "sql-diff" || s == "sql-raw-catalogue" || s == "sql-exec-error":
+		if now["sql-plan-error"] || (s != "sql-exec-error" && now["sql-exec-error"]) {
+			return true
+		}
+	}
+	return false
 }
 
 // repaired builds the case with repairs[0..k] applied.
